@@ -985,7 +985,9 @@ class Operations:
         nodes = tuple(nodes)
         setnodes = tuple(sorted(set(nodes) - set([knotvector[0], knotvector[-1]])))
         oldnpts = knotvector.npts
-        matrix = np.eye(oldnpts, dtype="object")
+        one = knotvector[-1] - knotvector[0]
+        one /= one
+        matrix = one * np.eye(oldnpts, dtype="object")
         if len(nodes) == 0:
             return totuple(matrix)
         for node in setnodes:
@@ -1055,7 +1057,9 @@ class Operations:
         degree = knotvector.degree
         npts = knotvector.npts
         if times == 0:
-            return totuple(np.eye(npts, dtype="object"))
+            one = knotvector[-1] - knotvector[0]
+            one /= one
+            return totuple(one * np.eye(npts, dtype="object"))
         if degree + 1 == npts:
             return Operations.degree_increase_bezier(knotvector, times)
         nodes = knotvector.knots
